@@ -132,6 +132,23 @@ Definition resolve_pinned (track new : bytes) : pres :=
              else POk new
        end.
 
+(* overlord/snapstate/snapstate.go: resolveChannel(snapName, oldChannel, newChannel, deviceCtx). What it reads from the
+   device model is abstracted to: is the snap the model's kernel / gadget, and the two tracks (empty = not pinned).
+   None = error. *)
+Definition pinned_for (is_kernel is_gadget : bool) (ktrack gtrack : bytes) : bytes :=
+  let p := if is_kernel && negb (is_nil_b ktrack) then ktrack else [] in
+  if is_gadget && negb (is_nil_b gtrack) then gtrack else p.
+
+Definition resolve_channel (is_kernel is_gadget : bool) (ktrack gtrack old new : bytes) : option bytes :=
+  if is_nil_b new then Some old
+  else
+    let pinned := pinned_for is_kernel is_gadget ktrack gtrack in
+    if is_nil_b pinned then resolve old new
+    else match resolve_pinned pinned new with
+         | POk r => Some r
+         | PInvalid | PSwitch => None
+         end.
+
 (* ------------------------------------------------------------------------------------------------------------
    Correspondence interface. Each case is an input with the projected results the real package returned. *)
 
@@ -166,7 +183,9 @@ Inductive case :=
      ParseVerbatim(result) *)
   | CResolve (cur new : bytes) (o_res : option bytes) (o_cur o_new o_resparsed : option chan)
   (* ResolvePinned(track,new); ParseVerbatim(result) *)
-  | CPinned (track new : bytes) (o_res : pres) (o_resparsed : option chan).
+  | CPinned (track new : bytes) (o_res : pres) (o_resparsed : option chan)
+  (* snapstate.resolveChannel for a snap that is / is not the model's kernel / gadget, with the model's tracks *)
+  | CSnap (is_kernel is_gadget : bool) (ktrack gtrack old new : bytes) (o_res : option bytes).
 
 Definition mismatch (c : case) : bool :=
   match c with
@@ -191,6 +210,7 @@ Definition mismatch (c : case) : bool :=
   | CPinned track new ores orp =>
       negb (pres_eqb (resolve_pinned track new) ores) ||
       negb (opt_eqb chan_eqb (match ores with POk r => parse_verbatim [] r dash | _ => None end) orp)
+  | CSnap ik ig kt gt old new ores => negb (opt_eqb beq (resolve_channel ik ig kt gt old new) ores)
   end.
 
 (* The property's conclusions evaluated on what the implementation returned. Only list membership in the risk
@@ -257,4 +277,15 @@ Definition monitor_fail (c : case) : bool :=
                match orp with Some rc => negb (beq (c_track rc) track) | None => false end
            | _ => false
            end
+  | CSnap ik ig kt gt old new ores =>
+      (* the system-level sentence: for the snap a model pins to a track, a request is resolved within that track or
+         refused - for every current channel, also when the request spells the current channel; no request changes nothing *)
+      if is_nil_b new then negb (opt_eqb beq ores (Some old))
+      else
+        let t := if ig && negb (is_nil_b gt) then gt else if ik && negb (is_nil_b kt) then kt else [] in
+        if is_nil_b t then false
+        else match ores with
+             | Some r => negb (beq r t || has_prefix (t ++ [slash]) r)
+             | None => false
+             end
   end.
